@@ -21,7 +21,9 @@ def history_case(rng):
     aac = rng.random() < 0.5
     name = j.Name(arbitrary_address_capable=aac, identity_number=rng.randrange(5, 1000), manufacturer_code=rng.randrange(2048))
     pref = rng.choice([128, 200, 10, 250, 0, 0, 253, 252])          # 0 is a valid address; 252/253: no room left after a loss (D28)
-    bypass = rng.random() < 0.15
+    bypass = rng.random() < 0.2
+    if bypass and rng.random() < 0.25:
+        pref = None                # claiming bypassed but no address configured: there is nothing to be operational at
     ca = j.ControllerApplication(name, pref, bypass)
     st.ecu.add_ca(controller_application=ca)
     net = sim.Net(w)
@@ -30,23 +32,28 @@ def history_case(rng):
         ca.start(sim.VT(rng.choice([0, 100000, 500000])))
         net.poke(st)
         hist.append('start')
+    stop_at = rng.randrange(1, 8) if rng.random() < 0.25 else None      # the application stops the CA's claim timer somewhere in the history
     lower = j.Name(value=name.value - rng.randrange(1, 4)).bytes
     higher = j.Name(value=name.value + rng.randrange(1, 4)).bytes
     lost_at = None       # (time, address) of the last lower-NAME claim injected for the address the CA had announced last
-    for _ in range(rng.randrange(0, 8)):
+    for step in range(rng.randrange(0, 8)):
         r = rng.random()
+        if step == stop_at:
+            ca.stop()
+            hist.append('stop')
         if r < 0.4:
             net.run(rng.choice([1000, 100000, 260000, 600000]))
             hist.append('run')
         else:
             own_claims = [(fr[0], fr[1] & 0xFF) for fr in st.sent if (fr[1] >> 8) & 0x3FFFF == 0xEEFF]
-            cur = own_claims[-1][1] if own_claims else pref
-            sa = rng.choice([cur, cur, pref, pref + 1, pref + 2, 77])
+            cur = own_claims[-1][1] if own_claims else (254 if pref is None else pref)
+            p0 = 254 if pref is None else pref
+            sa = rng.choice([cur, cur, p0, p0 + 1, p0 + 2, 77])
             nm = lower if rng.random() < 0.6 else higher
             net.inject(0, (6 << 26) | (0xEEFF << 8) | sa, list(nm), 0)
             net.run(0)
-            if nm is lower and own_claims and sa == cur and cur != 254:
-                lost_at = (w.now, cur)
+            if nm is lower and (own_claims or bypass) and sa == cur and cur != 254:
+                lost_at = (w.now, cur)      # (a CA that bypassed claiming holds its address without a claim frame of its own)
             net.run(rng.choice([0, 1000, 300000]))
             hist.append(('claim', sa, 'lower' if nm is lower else 'higher'))
     # the oracle's own view of what the CA holds: from the bus and the protocol rules
@@ -62,7 +69,7 @@ def history_case(rng):
         if entitled == 254 or (lost_at and lost_at[1] == entitled and lost_at[0] >= own_claims[-1][0]):
             entitled = None
     else:
-        entitled = pref if bypass else None
+        entitled = pref if bypass and not (lost_at and lost_at[1] == pref) else None
     st.sent.clear()
     dm1 = j.Dm1(ca)
     dm22 = j.Dm22(ca)
